@@ -6,7 +6,8 @@ import VaxisModel.Lemmas.DynList
 * F119  (fixed, /repo 5b2dab9): cursor gutter indexes the children with a wrapped `cursor - top`.
 * F119b (recorded): items replaced by fewer than `top`, then an upward scroll: `Children[len-1]` of
   an empty list.
-* F119c (recorded): children inserted above the top ignore a non-zero gap. -/
+* F119c (recorded): children inserted above the top ignore a non-zero gap.
+* F119f (fixed): `insertChildren` left `scroll.top` one below the first inserted widget. -/
 namespace VaxisModel.Witness.F119
 open VaxisModel.Model.DynList VaxisModel.Lemmas.DynList
 
@@ -14,24 +15,24 @@ def panics {α} (r : Except Panic α) : Bool := match r with | .error _ => true 
 
 /-- F119: DrawCursor, three items, wheel down, two draws — without the guard the second panics. -/
 theorem gutter_panics_unguarded :
-    panics (run false ⟨0, true⟩ [3, 1, 2] init [.wheelDown, .draw 4 1, .draw 4 1]) = true := by decide
+    panics (run ⟨false, true⟩ ⟨0, true⟩ [3, 1, 2] init [.wheelDown, .draw 4 1, .draw 4 1]) = true := by decide
 
 /-- … and with the guard it does not. -/
 theorem gutter_ok_guarded :
-    panics (run true ⟨0, true⟩ [3, 1, 2] init [.wheelDown, .draw 4 1, .draw 4 1]) = false := by decide
+    panics (run ⟨true, true⟩ ⟨0, true⟩ [3, 1, 2] init [.wheelDown, .draw 4 1, .draw 4 1]) = false := by decide
 
 /-- F119b: the state reached by `SetCursor(3); Draw` on four items of height 1 in a 2-row viewport is
     top = 2; with the items replaced by a single one, a pending scroll of −1 panics. -/
 theorem shrunk_scrollup_panics :
-    (match run true ⟨0, false⟩ [1, 1, 1, 1] init [.setCursor 3, .draw 4 2] with
-     | .ok s => panics (run true ⟨0, false⟩ [1] s [.pending (-1), .draw 4 2])
+    (match run ⟨true, true⟩ ⟨0, false⟩ [1, 1, 1, 1] init [.setCursor 3, .draw 4 2] with
+     | .ok s => panics (run ⟨true, true⟩ ⟨0, false⟩ [1] s [.pending (-1), .draw 4 2])
      | .error _ => false) = true := by decide
 
 /-- F119c: gap 1, two items of height 1, viewport 1: after moving to the second item and scrolling
     back up by 2 the two children are drawn at rows 0 and 1 — no gap between them. -/
 theorem gap_ignored_on_scroll_up :
-    (match run true ⟨1, false⟩ [1, 1] init [.next, .draw 4 1, .pending (-2)] with
-     | .ok s => (match draw true ⟨1, false⟩ [1, 1] s 4 1 with
+    (match run ⟨true, true⟩ ⟨1, false⟩ [1, 1] init [.next, .draw 4 1, .pending (-2)] with
+     | .ok s => (match draw ⟨true, true⟩ ⟨1, false⟩ [1, 1] s 4 1 with
         | .ok (_, cs) => cs.map (fun c => (c.idx, c.row, c.height)) == [(0, 0, 1), (1, 1, 1)]
         | .error _ => false)
      | .error _ => false) = true := by decide
@@ -39,18 +40,38 @@ theorem gap_ignored_on_scroll_up :
 /-- The state of the previous witness before its last draw. -/
 def s0 : St := { cursor := 1, top := 1, offset := 0, pending := -2, wantsCursor := false }
 
-theorem s0_reached : run true ⟨1, false⟩ [1, 1] init [.next, .draw 4 1, .pending (-2)] = .ok s0 := by rfl
+theorem s0_reached : run ⟨true, true⟩ ⟨1, false⟩ [1, 1] init [.next, .draw 4 1, .pending (-2)] = .ok s0 := by rfl
 
-theorem s0_draw : draw true ⟨1, false⟩ [1, 1] s0 4 1
+theorem s0_draw : draw ⟨true, true⟩ ⟨1, false⟩ [1, 1] s0 4 1
     = .ok ({ s0 with top := 0, pending := 0 }, [⟨0, 0, 1⟩, ⟨1, 1, 1⟩]) := by rfl
 
 /-- Hence the full layout statement (all gaps) is false of the code. -/
 theorem dyn_layout_full_fails :
     ¬ ∀ (cfg : Cfg) (hs : List Nat) (s : St) (W H : Nat) (s' : St) (cs : List Child), s.top < U →
-      draw true cfg hs s W H = .ok (s', cs) → Contig cfg.gap cs ∧ Heights hs cs := by
+      draw ⟨true, true⟩ cfg hs s W H = .ok (s', cs) → Contig cfg.gap cs ∧ Heights hs cs := by
   intro h
   have := (h ⟨1, false⟩ [1, 1] s0 4 1 _ _ (by decide) s0_draw).1
   have h2 : (1 : Int) = 0 + ((1 : Nat) : Int) + 1 := this.1.2
   omega
+
+/-- F119f: heights 1,1,5,2.  `SetCursor(3); Draw(H=2); SetPendingScroll(-2); Draw(H=5); SetCursor(2);
+    Draw(H=5)`: without the stop condition the top is left at item 1 with the offset (3) measured in
+    item 2, and the selected item 2 — which fits the viewport — is drawn at rows −2…2. -/
+def f119fOps : List Op := [.setCursor 3, .draw 4 2, .pending (-2), .draw 4 5, .setCursor 2]
+
+theorem insert_top_off_by_one_hides_selection :
+    (match run ⟨true, false⟩ ⟨0, false⟩ [1, 1, 5, 2] init f119fOps with
+     | .ok s => (match draw ⟨true, false⟩ ⟨0, false⟩ [1, 1, 5, 2] s 4 5 with
+        | .ok (_, cs) => cs.map (fun c => (c.idx, c.row, c.height)) == [(1, -3, 1), (2, -2, 5), (3, 3, 2)]
+        | .error _ => false)
+     | .error _ => false) = true := by decide
+
+/-- … with it the selected item is drawn at rows 0…4. -/
+theorem insert_top_fixed_shows_selection :
+    (match run ⟨true, true⟩ ⟨0, false⟩ [1, 1, 5, 2] init f119fOps with
+     | .ok s => (match draw ⟨true, true⟩ ⟨0, false⟩ [1, 1, 5, 2] s 4 5 with
+        | .ok (_, cs) => cs.map (fun c => (c.idx, c.row, c.height)) == [(2, 0, 5)]
+        | .error _ => false)
+     | .error _ => false) = true := by decide
 
 end VaxisModel.Witness.F119
